@@ -15,6 +15,7 @@ import (
 	"go/types"
 	"os"
 	"path/filepath"
+	"sort"
 	"strconv"
 
 	"golang.org/x/tools/go/ast/astutil"
@@ -35,6 +36,8 @@ type rewriter struct {
 	lblPre  map[ast.Node][]ast.Stmt // pre-statements hoisted out of a labelled statement
 	recv2   map[ast.Node]bool // <-ch used in a 2-value context
 	sites   int
+	shared  map[types.Object]bool // package-level variables written after initialisation (any package)
+	pkg     *types.Package
 }
 
 func (r *rewriter) tmp(prefix string) *ast.Ident {
@@ -94,6 +97,235 @@ func (r *rewriter) isConstOrNil(e ast.Expr) bool {
 	return tv.Value != nil || tv.IsNil()
 }
 
+
+// ---- shared memory: package-level variables written after init, and sync/atomic operations ----
+//
+// A package-level variable that some function other than init assigns, increments, takes the address
+// of, or hands to delete/copy/clear/append is "shared". Every statement that mentions a shared
+// variable, and every statement that performs a sync/atomic operation, becomes a scheduling point
+// (zzvs.Shared before it; atomic operations also after it), so interleavings between such statements
+// are explored like interleavings between channel operations. Shared variables are re-initialised
+// before each controlled run (generated zzvsReset functions).
+
+func rootVar(info *types.Info, e ast.Expr) types.Object {
+	for {
+		switch x := e.(type) {
+		case *ast.ParenExpr:
+			e = x.X
+		case *ast.IndexExpr:
+			e = x.X
+		case *ast.SliceExpr:
+			e = x.X
+		case *ast.StarExpr:
+			e = x.X
+		case *ast.SelectorExpr:
+			if id, ok := x.X.(*ast.Ident); ok {
+				if _, isPkg := info.Uses[id].(*types.PkgName); isPkg {
+					return pkgLevelVar(info.Uses[x.Sel])
+				}
+			}
+			e = x.X
+		case *ast.Ident:
+			return pkgLevelVar(info.Uses[x])
+		default:
+			return nil
+		}
+	}
+}
+
+func pkgLevelVar(o types.Object) types.Object {
+	v, ok := o.(*types.Var)
+	if !ok || v.IsField() || v.Pkg() == nil || v.Parent() != v.Pkg().Scope() {
+		return nil
+	}
+	if len(v.Pkg().Path()) < len(modPath) || v.Pkg().Path()[:len(modPath)] != modPath {
+		return nil
+	}
+	return v
+}
+
+// collectShared adds to set every package-level variable of the module that the file mutates outside init.
+func collectShared(info *types.Info, f *ast.File, set map[types.Object]bool) {
+	for _, d := range f.Decls {
+		fd, ok := d.(*ast.FuncDecl)
+		if !ok || fd.Body == nil || (fd.Recv == nil && fd.Name.Name == "init") {
+			continue
+		}
+		ast.Inspect(fd.Body, func(n ast.Node) bool {
+			mark := func(e ast.Expr) {
+				if o := rootVar(info, e); o != nil {
+					set[o] = true
+				}
+			}
+			switch x := n.(type) {
+			case *ast.AssignStmt:
+				for _, l := range x.Lhs {
+					mark(l)
+				}
+			case *ast.IncDecStmt:
+				mark(x.X)
+			case *ast.UnaryExpr:
+				if x.Op == token.AND {
+					mark(x.X)
+				}
+			case *ast.RangeStmt:
+				if x.Tok == token.ASSIGN {
+					if x.Key != nil {
+						mark(x.Key)
+					}
+					if x.Value != nil {
+						mark(x.Value)
+					}
+				}
+			case *ast.CallExpr:
+				if id, ok := x.Fun.(*ast.Ident); ok && len(x.Args) > 0 {
+					if _, b := info.Uses[id].(*types.Builtin); b && (id.Name == "delete" || id.Name == "copy" || id.Name == "clear") {
+						mark(x.Args[0])
+					}
+				}
+				// method with pointer receiver called on an addressable global: implicit &global
+				if se, ok := x.Fun.(*ast.SelectorExpr); ok {
+					if s := info.Selections[se]; s != nil && s.Kind() == types.MethodVal {
+						if fn, ok := s.Obj().(*types.Func); ok {
+							if sig, ok := fn.Type().(*types.Signature); ok && sig.Recv() != nil {
+								if _, ptr := sig.Recv().Type().(*types.Pointer); ptr {
+									if _, already := info.TypeOf(se.X).(*types.Pointer); !already {
+										mark(se.X)
+									}
+								}
+							}
+						}
+					}
+				}
+			}
+			return true
+		})
+	}
+}
+
+func (r *rewriter) isAtomicCall(n *ast.CallExpr) bool {
+	se, ok := n.Fun.(*ast.SelectorExpr)
+	if !ok {
+		return false
+	}
+	if id, ok := se.X.(*ast.Ident); ok && r.isPkg(id, "sync/atomic") {
+		return true
+	}
+	if s := r.info.Selections[se]; s != nil && s.Obj().Pkg() != nil && s.Obj().Pkg().Path() == "sync/atomic" {
+		return true
+	}
+	return false
+}
+
+// touchesShared reports whether the given nodes (not descending into function literals or nested
+// statement bodies) mention a shared variable or perform an atomic operation.
+func (r *rewriter) touchesShared(nodes ...ast.Node) bool {
+	found := false
+	for _, n := range nodes {
+		if n == nil || found {
+			continue
+		}
+		ast.Inspect(n, func(m ast.Node) bool {
+			if found {
+				return false
+			}
+			switch x := m.(type) {
+			case *ast.FuncLit:
+				return false
+			case *ast.Ident:
+				if o := pkgLevelVar(r.info.Uses[x]); o != nil && r.shared[o] {
+					found = true
+				}
+			case *ast.CallExpr:
+				if r.isAtomicCall(x) {
+					found = true
+				}
+				if se, ok := x.Fun.(*ast.SelectorExpr); ok && r.isZZ(se, "After") {
+					found = true
+				}
+			}
+			return true
+		})
+	}
+	return found
+}
+
+func (r *rewriter) isZZ(se *ast.SelectorExpr, name string) bool {
+	id, ok := se.X.(*ast.Ident)
+	return ok && id.Name == "zzvs" && se.Sel.Name == name
+}
+
+// header returns the parts of a statement that execute as part of the statement itself (for compound
+// statements: everything but the nested bodies, whose statements are instrumented on their own).
+func header(s ast.Stmt) []ast.Node {
+	nn := func(xs ...ast.Node) []ast.Node {
+		var out []ast.Node
+		for _, x := range xs {
+			if x != nil && !isNilNode(x) {
+				out = append(out, x)
+			}
+		}
+		return out
+	}
+	switch x := s.(type) {
+	case *ast.IfStmt:
+		return nn(x.Init, x.Cond)
+	case *ast.ForStmt:
+		return nn(x.Init, x.Cond)
+	case *ast.RangeStmt:
+		return nn(x.X)
+	case *ast.SwitchStmt:
+		return nn(x.Init, x.Tag)
+	case *ast.TypeSwitchStmt:
+		return nn(x.Init, x.Assign)
+	case *ast.BlockStmt, *ast.SelectStmt:
+		return nil
+	case *ast.LabeledStmt:
+		return header(x.Stmt)
+	case *ast.CaseClause, *ast.CommClause:
+		return nil
+	}
+	return []ast.Node{s}
+}
+
+func isNilNode(n ast.Node) bool {
+	switch x := n.(type) {
+	case ast.Stmt:
+		return x == nil
+	case ast.Expr:
+		return x == nil
+	}
+	return false
+}
+
+// sharedStmt is called (post-order) for every statement: adds the scheduling points.
+func (r *rewriter) sharedStmt(c *astutil.Cursor, s ast.Stmt) {
+	if fs, ok := s.(*ast.ForStmt); ok && (r.touchesShared(fs.Cond) || r.touchesShared(fs.Post)) {
+		// a point before every evaluation of the condition: for init; ; post { Shared(); if !(cond) { break }; body }
+		pre := []ast.Stmt{&ast.ExprStmt{X: call("Shared", r.site(fs))}}
+		if fs.Cond != nil {
+			pre = append(pre, &ast.IfStmt{Cond: &ast.UnaryExpr{Op: token.NOT, X: &ast.ParenExpr{X: fs.Cond}}, Body: &ast.BlockStmt{List: []ast.Stmt{&ast.BranchStmt{Tok: token.BREAK}}}})
+			fs.Cond = nil
+		}
+		fs.Body.List = append(pre, fs.Body.List...)
+		r.changed = true
+	}
+	if c.Index() < 0 {
+		return
+	}
+	if _, isClause := s.(*ast.CaseClause); isClause {
+		return
+	}
+	if _, isClause := s.(*ast.CommClause); isClause {
+		return
+	}
+	if !r.touchesShared(header(s)...) {
+		return
+	}
+	c.InsertBefore(&ast.ExprStmt{X: call("Shared", r.site(s))})
+	r.changed = true
+}
+
 func (r *rewriter) pre(c *astutil.Cursor) bool {
 	switch n := c.Node().(type) {
 	case *ast.SelectStmt:
@@ -131,6 +363,9 @@ func (r *rewriter) commOf(c *astutil.Cursor) bool {
 }
 
 func (r *rewriter) post(c *astutil.Cursor) bool {
+	if st, ok := c.Node().(ast.Stmt); ok {
+		defer r.sharedStmt(c, st)
+	}
 	switch n := c.Node().(type) {
 	case *ast.SendStmt:
 		if r.skip[n] {
@@ -163,6 +398,19 @@ func (r *rewriter) post(c *astutil.Cursor) bool {
 	case *ast.CallExpr:
 		if id, ok := n.Fun.(*ast.Ident); ok && r.isBuiltin(id, "close") && len(n.Args) == 1 {
 			c.Replace(call("Close", n.Args[0], r.site(n)))
+			r.changed = true
+		} else if r.isAtomicCall(n) {
+			// a point after the operation as well (the one before it is added at statement level)
+			if tv, ok := r.info.Types[n]; ok && tv.IsValue() {
+				if _, isStmt := c.Parent().(*ast.ExprStmt); !isStmt {
+					c.Replace(call("After", n, r.site(n)))
+					r.changed = true
+				}
+			}
+		}
+	case *ast.ExprStmt:
+		if ce, ok := n.X.(*ast.CallExpr); ok && r.isAtomicCall(ce) && c.Index() >= 0 {
+			c.InsertAfter(&ast.ExprStmt{X: call("Shared", r.site(n))})
 			r.changed = true
 		}
 	case *ast.SelectorExpr:
@@ -403,6 +651,55 @@ func (r *rewriter) rewriteSelect(c *astutil.Cursor, n *ast.SelectStmt) {
 	r.changed = true
 }
 
+// resetDecl builds `func init() { zzvs.RegisterReset(func() { <re-initialise the shared variables declared in f> }) }`.
+func resetDecl(info *types.Info, f *ast.File, shared map[types.Object]bool) ast.Decl {
+	var body []ast.Stmt
+	for _, d := range f.Decls {
+		gd, ok := d.(*ast.GenDecl)
+		if !ok || gd.Tok != token.VAR {
+			continue
+		}
+		for _, sp := range gd.Specs {
+			vs := sp.(*ast.ValueSpec)
+			any := false
+			for _, nm := range vs.Names {
+				if shared[info.Defs[nm]] {
+					any = true
+				}
+			}
+			if !any {
+				continue
+			}
+			switch {
+			case len(vs.Values) == 0:
+				for _, nm := range vs.Names {
+					if shared[info.Defs[nm]] {
+						body = append(body, &ast.ExprStmt{X: call("Zero", &ast.UnaryExpr{Op: token.AND, X: ast.NewIdent(nm.Name)})})
+					}
+				}
+			case len(vs.Values) == len(vs.Names):
+				for i, nm := range vs.Names {
+					if shared[info.Defs[nm]] {
+						body = append(body, &ast.AssignStmt{Lhs: []ast.Expr{ast.NewIdent(nm.Name)}, Tok: token.ASSIGN, Rhs: []ast.Expr{vs.Values[i]}})
+					}
+				}
+			default:
+				var lhs []ast.Expr
+				for _, nm := range vs.Names {
+					lhs = append(lhs, ast.NewIdent(nm.Name))
+				}
+				body = append(body, &ast.AssignStmt{Lhs: lhs, Tok: token.ASSIGN, Rhs: vs.Values})
+			}
+		}
+	}
+	if len(body) == 0 {
+		return nil
+	}
+	lit := &ast.FuncLit{Type: &ast.FuncType{Params: &ast.FieldList{}}, Body: &ast.BlockStmt{List: body}}
+	return &ast.FuncDecl{Name: ast.NewIdent("init"), Type: &ast.FuncType{Params: &ast.FieldList{}},
+		Body: &ast.BlockStmt{List: []ast.Stmt{&ast.ExprStmt{X: call("RegisterReset", lit)}}}}
+}
+
 func fatal(format string, a ...interface{}) {
 	fmt.Fprintf(os.Stderr, "vinstr: "+format+"\n", a...)
 	os.Exit(2)
@@ -432,13 +729,24 @@ func main() {
 	}
 	overlay := map[string]string{}
 	totalSites, nfiles := 0, 0
+	shared := map[types.Object]bool{}
 	for _, p := range pkgs {
 		if len(p.Errors) > 0 {
 			fatal("type errors in %s: %v", p.PkgPath, p.Errors)
 		}
 		for _, f := range p.Syntax {
+			collectShared(p.TypesInfo, f, shared)
+		}
+	}
+	var sharedNames []string
+	for o := range shared {
+		sharedNames = append(sharedNames, o.Pkg().Name()+"."+o.Name())
+	}
+	sort.Strings(sharedNames)
+	for _, p := range pkgs {
+		for _, f := range p.Syntax {
 			fn := p.Fset.Position(f.Pos()).Filename
-			r := &rewriter{fset: p.Fset, info: p.TypesInfo, file: f, skip: map[ast.Node]bool{}, lblPre: map[ast.Node][]ast.Stmt{}, recv2: map[ast.Node]bool{}}
+			r := &rewriter{fset: p.Fset, info: p.TypesInfo, file: f, skip: map[ast.Node]bool{}, lblPre: map[ast.Node][]ast.Stmt{}, recv2: map[ast.Node]bool{}, shared: shared, pkg: p.Types}
 			usesRuntime, usesSync := false, false
 			for _, im := range f.Imports {
 				if im.Path.Value == `"runtime"` {
@@ -449,6 +757,10 @@ func main() {
 				}
 			}
 			astutil.Apply(f, r.pre, r.post)
+			if reset := resetDecl(p.TypesInfo, f, shared); reset != nil {
+				f.Decls = append(f.Decls, reset)
+				r.changed = true
+			}
 			if !r.changed {
 				continue
 			}
@@ -487,5 +799,5 @@ func main() {
 	}
 	js, _ = json.MarshalIndent(map[string]interface{}{"Replace": plain}, "", " ")
 	os.WriteFile(filepath.Join(out, "overlay_plain.json"), js, 0644)
-	fmt.Printf("vinstr: instrumented %d files, %d sites\n", nfiles, totalSites)
+	fmt.Printf("vinstr: instrumented %d files, %d sites, shared package-level variables: %v\n", nfiles, totalSites, sharedNames)
 }
